@@ -48,6 +48,10 @@ impl CallWant {
 				Ok([n]) => r.result_raw.as_deref() == Some(n.to_string().as_str()),
 				Err(_) => r.error_code == Some(classify::INVALID_PARAMS),
 			},
+			Some("seq3") => match handlers::seq3_reference(self.params_raw.as_deref()) {
+				Some(v) => r.result_raw.as_deref().and_then(|t| serde_json::from_str::<Value>(t).ok()) == Some(v),
+				None => r.error_code == Some(classify::INVALID_PARAMS),
+			},
 			Some("fail") => r.error_code == Some(1234) && r.error_data_raw.as_deref() == Some(echo_text),
 			Some("panic_blocking") => r.error_code == Some(classify::INTERNAL_ERROR),
 			Some("sub") => {
